@@ -346,6 +346,23 @@ def _a(r: Rat) -> int:
     return m[0][0]
 
 
+def entry_index(ev, lctx, tables, rule) -> Rat:
+    """the table position an iteration of the interval loop fills: entries present before the loop + iterations done so far (whatever the loop variable counts)"""
+    ksym = lctx.sym
+    log = [l for l in ev.loop_log if l['lid'] == lctx.lid]
+    if log and log[0].get('lo') is not None and ksym is not None:
+        pre = log[0]['pre'].env
+        lens = set()
+        for nm_ in tables:
+            v0 = pre.get(nm_)
+            lens.add(len(v0.items) if isinstance(v0, Tup) and v0.kind == 'list' else None)
+        if len(lens) == 1 and None not in lens:
+            return ksym - log[0]['lo'] + C(lens.pop())
+        if log[0]['lo'] != C(1):
+            raise AnalysisError(f"{rule}: cannot tell which table position an iteration of the interval loop fills")
+    return ksym
+
+
 def check_adaptive_windows(ctx):
     ctx.rule('C06.6', 'get_adaptive_transition_points: entry k of the left/right window tables is, in the general case, '
                       'int(min(max(g*a/(1+g),1),a)) and int(min(max(a/(1+g),1),a)) with g=|y[k+1]-y[k]|/|y[k]-y[k-1]| at the default adaptive_smooth=1 (the property fixes it there; other values are C07.3\'s concern) '
@@ -395,18 +412,7 @@ def check_adaptive_windows(ctx):
     ksym = kctxs[0].sym
     # entry k of a table is the one appended when the table already holds k entries: the interval an iteration describes is its position in the
     # tables (entries present before the loop + iterations done), whatever the loop variable counts
-    log = [l for l in ev.loop_log if l['lid'] == kctxs[0].lid]
-    if log and log[0].get('lo') is not None and ksym is not None:
-        pre = log[0]['pre'].env
-        lens = set()
-        for nm_, p_ in pos_of.items():
-            if p_ in (0, 1):
-                v0 = pre.get(nm_)
-                lens.add(len(v0.items) if isinstance(v0, Tup) and v0.kind == 'list' else None)
-        if len(lens) == 1 and None not in lens:
-            ksym = ksym - log[0]['lo'] + C(lens.pop())
-        elif log[0]['lo'] != C(1):
-            raise AnalysisError('C06.6: cannot tell which table position an iteration of the interval loop fills')
+    ksym = entry_index(ev, kctxs[0], [nm_ for nm_, p_ in pos_of.items() if p_ in (0, 1)], 'C06.6')
     sp = SpecEnv(ctx.prog, {'Y': Y, 'n': Num(n), 'k': Num(ksym), 'a': a, 's': s})
     sp.exec('nom = abs(Y[(k+1)*n] - Y[k*n])\ndenom = abs(Y[k*n] - Y[(k-1)*n])\ng = (nom/denom)**s\n'
             'al = int(min(max(g*a/(1+g), 1), a))\nar = int(min(max(a/(1+g), 1), a))\nhalf = int(a/2)\n')
